@@ -66,6 +66,11 @@ def check_script(script, rec, want_witness=True):
                               f"CodeBuilder raised {type(ex).__name__}: {ex}", wit)
                 return "violation"
             funcs = prog.python_functions(script)
+            from vf.runner import jhash
+            if jhash(script)[-1] in "0123":
+                # every fourth method description is printed before it is used (reading it must not change it)
+                str(dag)
+                rec.count("methods_printed_before_use")
             ri = backends.run_interpreter(dag, script, funcs)
             rg = backends.run_generated(dag, script, funcs)
     except CaseTimeout:
